@@ -24,3 +24,9 @@ def exists_range(lo, hi, pred):
 def is_opaque(x):
     """True for objects that exist only through an interface contract (never for real instances)."""
     return type(x).__name__.startswith('Stub_')
+
+
+def all_chars(s, pred):
+    """every character of the string s satisfies pred (a pure predicate on one-character strings).
+    In proofs: a measure over string concatenation (pyvc.charclass)."""
+    return all(pred(c) for c in s)
